@@ -173,6 +173,7 @@ func guard(entry string, inputLen int, fn func()) (f *finding) {
 			// the figure is rounded down to 64 MiB so that the message of a generated case is the same in every run
 			f = &finding{Key: "C12:runaway-allocation:" + entry,
 				Msg: fmt.Sprintf("%s allocated >= %d MiB for an input of %d bytes (limit %d MiB for inputs below %d MiB)", entry, d>>26<<6, inputLen, runawayBytes>>20, runawayInputMax>>20)}
+			debug.FreeOSMemory() // give the gigabytes back before the next case
 		}
 	}()
 	fn()
